@@ -157,6 +157,20 @@ EXTRA = {
     "C18": " The I/O-protocol ordering rule (nothing is cached before the range check and the read succeeded) is run for the stream parser, so a refused read leaves no buffer a later query could answer from.",
     "C20": " Completeness: each arm of the one-pass discovery is taken on sh_type alone (no further condition on the header); the by-name search is by-passed only on what section_headers_with_strtab() returned.",
 }
+# premises that are run, not cited (DESIGN.md 10.9, round 8): the relevant rules of the named property are evaluated as part of the check
+PREMISES = {
+    "C03": " Run as premises: C02's decode rules (the header fields that designate ranges are the file's fields), C15's string rule, C14's note rule.",
+    "C05": " Run as premises: C02's decode rules (FileHeader / SectionHeader fields are the file's fields); for the stream parser the cache protocol and load-before-get (a read returns the requested range). A refusal for a wrong entry size is accepted only for this table's entry size against this table's entry type.",
+    "C08": " Run as premise: C01's census for the decoding code the stream parser shares with the slice parser.",
+    "C10": " Run as premises: C04 (all specs share the provided read methods; is_little per variant) and, for the stream parser, the I/O protocol.",
+    "C11": " Run as premises: C02's decode rules, C09's table / iterator rules, C15's string rule.",
+    "C12": " Run as premises: C02's decode rules, C09's table / iterator rules, C15's string rule.",
+    "C16": " Every in-crate constructor of a counted iterator stores its count argument unchanged; every in-crate iterator defines next() only.",
+    "C17": " Any field written through self holds its entry value on every error path of the writing function (path-exact), not only the five long-lived fields.",
+    "C20": " Run as premises: C05's shstrndx rule (by-name lookup reads names through the designated table) and C09's iterator / table rules (the entry iterators behind the typed views).",
+}
+for _pid, _txt in PREMISES.items():
+    EXTRA[_pid] = EXTRA.get(_pid, "") + _txt
 for _pid, _txt in EXTRA.items():
     if _pid in CLAIMS:
         _c = CLAIMS[_pid]
